@@ -2,6 +2,7 @@
 From Foca Require Import L_TimeoutLast L_Evidence L_Monotone L_Epoch Concrete ProbeM.
 From Foca Require Import Laws L_Lists MembersM FocaM L_Members L_MembersInv L_Join L_Forward L_Reject L_Timeout.
 From Coq Require Import Permutation.
+From Foca Require Props_C12.
 
 Section C11.
 Context {Id Addr : Type} {IO : IdOps Id Addr} {CO : CodecOps Id} {HO : HandlerOps Id}.
@@ -134,6 +135,30 @@ Theorem C11_epoch_along_histories (rnd : oracle) (l : list (@input Id)) (f : @fo
   same_epoch_hist rnd f l -> token (run_calls rnd f l) = token f.
 Proof. exact (history_epoch rnd l f). Qed.
 
+(* THE TIMEOUT IS ARMED WHENEVER THE INSTANCE'S OWN ROUND FAILS (the same statement as C12_round_end,
+   restated here because "takes effect iff unrefuted" needs a timeout to exist): a live
+   ProbeRandomMember call whose previous round produced no evidence schedules exactly one
+   ChangeSuspectToDown for the target - incarnation probed at, current token, suspect_to_down_after -
+   whenever the target is still an active record after the Suspect update, WHETHER OR NOT that update
+   changed anything (the suspicion may already have been learnt by gossip, which arms no timer) *)
+Theorem C11_timeout_armed_when_own_round_fails (rnd : oracle) (f : @foca Id Addr HO) :
+  conn f = Connected ->
+  let es := snd (fst (fst (step rnd f (ITimer (TProbeRandomMember (token f)))))) in
+  let prb1 := if negb (probe_validate (prb f)) then probe_clear (prb f) else prb f in
+  filter (fun e => match e with Submit (TChangeSuspectToDown _ _ _) _ => true | _ => false end) es =
+  match snd (probe_take_failed prb1) with
+  | Some fm =>
+      match apply_existing_if (mems f) (mkMember (m_id fm) (m_inc fm) Suspect) (fun _ => true) with
+      | Some (_, sm) =>
+          if is_active_now sm
+          then [Submit (TChangeSuspectToDown (m_id fm) (m_inc fm) (token f)) (suspect_to_down_after (cfg f))]
+          else []
+      | None => []
+      end
+  | None => []
+  end.
+Proof. exact (Props_C12.C12_round_end rnd f). Qed.
+
 End C11.
 
 (* non-vacuity: a round that starts on the recovery path (the indirect-stage timer of the previous round was
@@ -163,3 +188,4 @@ Print Assumptions C11_epoch_terms.
 Print Assumptions C11_epoch_changes_only_by_idle_defunct_rejoin.
 Print Assumptions C11_epoch_along_histories.
 Print Assumptions C11_epoch_example.
+Print Assumptions C11_timeout_armed_when_own_round_fails.
